@@ -608,8 +608,12 @@ def information_schema_fs_tables_ext(expression: exp.Expression) -> exp.Expressi
         and tbl_exp.name.upper() == "TABLES"
         and tbl_exp.db.upper() == "INFORMATION_SCHEMA"
     ):
+        # join the side table of the database whose information_schema is being read
+        ext_table = "information_schema._fs_tables_ext"
+        if tbl_exp.catalog:
+            ext_table = f"{tbl_exp.catalog}.{ext_table}"
         return expression.join(
-            "information_schema._fs_tables_ext",
+            ext_table,
             on=(
                 """
                 tables.table_catalog = _fs_tables_ext.ext_table_catalog AND
